@@ -500,3 +500,34 @@ PROPS["C01"].update(tie=["Tie", "TieFraming"], tie_theorems=[_T + "tie_GetString
 PROPS["C17"].update(tie=["TieWriter"], tie_theorems=TIE_WRITER)
 # an oversized message must be skipped and answered whatever the state of a server shutdown (forced schedules)
 _addcamp("C10", "close", 200, 6000)
+# wave 5: a connection's verdict must be its own even while another login of the same role is still being
+# validated (multi variant `hold`: a held validator, overlapping logins with right and wrong passwords)
+_addcamp("C01", "multi", 500, 15000)
+
+# ---- session 5: copy.go translated (Pw/Generated/TransCopy.lean over Pw/Go/RtCopy.lean) and tied to the model's COPY
+# readers (Props/TieCopy.lean); Slurp's loop and the remaining cases of ReadTypedMsg tied to readItem (Props/TieSlurp.lean)
+TIE_COPYREAD = [_T + n for n in ("tie_CopyRead_fuel0", "tie_CopyRead_data", "tie_CopyRead_done", "tie_CopyRead_skip",
+                                 "tie_CopyRead_fail", "tie_CopyRead_other", "tie_CopyRead_exceeded", "tie_CopyRead_err",
+                                 "tie_CopyRead_nonok", "readTyped_msg", "tie_CopyRead_msg", "tie_CopyRead_msg_skip")]
+TIE_BINCOPY = [_T + n for n in ("tie_fill_enough", "tie_fill_done", "tie_fill_step_data", "tie_fill_step_eof",
+                                "tie_fill_step_err", "tie_fill_step_block", "fill_post", "tie_take_ok", "tie_take_eof",
+                                "tie_take_err", "tie_take_block", "take_no_panic", "tie_takeLength_err", "tie_takeLength_block",
+                                "absErr_lengthExceeds", "lengthFmt_eq", "tie_skipHeader_err", "tie_skipHeader_noSig",
+                                "hasPrefix_model")]
+TIE_SLURP = [_T + n for n in ("tie_Slurp", "tie_Slurp_full", "tie_Slurp_short", "tie_Slurp_nonpos", "tie_Slurp_total",
+                              "slurp_zero_limit_spins", "tie_ReadTypedMsg_big", "tie_big_then_Slurp",
+                              "tie_ReadUntypedMsg_shorthdr", "tie_ReadUntypedMsg_shortbody", "tie_ReadTypedMsg_short",
+                              "tie_ReadTypedMsg_fine", "tie_ReadTypedMsg_total", "tie_ReadTypedMsg_keeps_ok")]
+
+
+def _addtie(pid, mods, thms):
+    p = PROPS[pid]
+    p["tie"] = list(p.get("tie", [])) + [m for m in mods if m not in p.get("tie", [])]
+    p["tie_theorems"] = list(p.get("tie_theorems", [])) + [t for t in thms if t not in p.get("tie_theorems", [])]
+
+
+_addtie("C13", ["TieCopy"], TIE_COPYREAD)
+_addtie("C14", ["TieCopy"], TIE_COPYREAD + TIE_BINCOPY)
+_addtie("C04", ["TieCopy", "TieSlurp"], TIE_COPYREAD + TIE_BINCOPY + TIE_SLURP)
+_addtie("C10", ["TieCopy", "TieSlurp"], [_T + "tie_CopyRead_exceeded", _T + "absErr_lengthExceeds", _T + "lengthFmt_eq"] + TIE_SLURP)
+_addtie("C03", ["TieSlurp"], TIE_SLURP)
